@@ -1,6 +1,15 @@
 import TPV.Model.GeomTerm
 import TPV.Model.GeomSdf
-open TPV TPV.Proto TPV.Geom
+import TPV.Model.GeomExtra
+open TPV TPV.Proto TPV.Geom TPV.GeomX
+
+def minAbs (l : List Rat) : String :=
+  match l.map (fun x => if x < 0 then -x else x) with
+  | [] => "none"
+  | x :: xs => showRat (xs.foldl min x)
+
+def parseV3 : P (V3 Rat) := do let a ← rat; let b ← rat; let c ← rat; pure (a, b, c)
+def parseTri : P (Tri Rat) := do let a ← parseV3; let b ← parseV3; let c ← parseV3; pure (a, b, c)
 
 def showOB : Option Bool → String
   | some true => "1" | some false => "0" | none => "none"
@@ -25,6 +34,49 @@ def step (line : String) : String :=
       let pts ← parseEnv rat
       let ρ ← parseEnv rat
       return (match sd d pts ρ with | some m => showRat m | none => "none")
+    | "pprod" => do
+      -- Point × … × Point [× D]: reply `answer  margin-of-the-point-tests  margin-of-D`
+      let atol ← rat; let rtol ← rat; let batol ← rat
+      let ps ← many (do let v ← next; let p ← parsePF rat; let a ← rat; pure (v, p, a))
+      let hasRest ← bool
+      let rest ← if hasRest then (do pure (some (← parseDom rat))) else pure none
+      let pts ← parseEnv rat
+      let ρ ← parseEnv rat
+      let τ : Tol Rat := ⟨atol, rtol, batol⟩
+      let res := PProd.contains τ ⟨ps, rest⟩ pts ρ
+      let psl := ps.flatMap fun (v, p, a) => pointSlacks a rtol ((pts.get v).getD []) (p.f (pts ++ ρ))
+      let dm := match rest with
+        | some D => (match margin τ false D pts ρ with | some m => showRat m | none => "none")
+        | none => "inf"
+      return s!"{showOB res} {minAbs psl} {dm}"
+    | "rot3" | "rot3bdry" => do
+      let atol ← rat; let rtol ← rat; let batol ← rat
+      let v ← next
+      let d ← parseDom rat
+      let m ← parsePF rat
+      let c ← parsePF rat
+      let pts ← parseEnv rat
+      let ρ ← parseEnv rat
+      let τ : Tol Rat := ⟨atol, rtol, batol⟩
+      let onB := op == "rot3bdry"
+      let res := rot3Contains τ onB v d m c pts ρ
+      let mg := match pts.get v, m.f (pts ++ ρ), c.f (pts ++ ρ) with
+        | some [x, y, z], [m00, m01, m02, m10, m11, m12, m20, m21, m22], [cx, cy, cz] =>
+          let s := solve3 m00 m01 m02 m10 m11 m12 m20 m21 m22 (x - cx) (y - cy) (z - cz)
+          margin τ onB d [(v, [s.1 + cx, s.2.1 + cy, s.2.2 + cz])] (pts.filter (fun b => b.1 != v) ++ ρ)
+        | _, _, _ => none
+      return s!"{showOB res} {match mg with | some m => showRat m | none => "none"}"
+    | "mesh" => do
+      let solids ← many (many parseTri)
+      let cavities ← many (many parseTri)
+      let v ← next
+      let pts ← parseEnv rat
+      let m : Mesh Rat := ⟨solids, cavities⟩
+      let res := meshContains m v pts
+      let mg := match pts.get v with
+        | some [x, y, z] => minAbs (meshSlacks m (x, y, z))
+        | _ => "none"
+      return s!"{showOB res} {mg}"
     | "freevars" => do
       let d ← parseDom rat
       return " ".intercalate d.freeVars
